@@ -35,6 +35,12 @@ structure MState where
       socket closed -/
   cpc : Nat := 0
   sockClosed : Bool := false
+  /-- the peer has closed or reset the connection: once the delivered bytes are consumed, `recv` fails (EOF / ECONNRESET) -/
+  inEnd : Bool := false
+  /-- `os._exit` ran (default reaction to an I/O failure): the process is gone -/
+  exited : Bool := false
+  /-- ghost: I/O-handler notifications so far -/
+  nio : Nat := 0
 
 inductive MEff
   | enqueue (line : String)
@@ -45,6 +51,8 @@ inductive MEff
   | sent (bytes : String)
   | enqueuePill
   | sockClose
+  | ioHandler      -- `ExceptionHandler.handle_ioexception` invoked
+  | exit           -- `os._exit(1)`
 deriving Repr
 
 /-- perform the reader's local actions up to (not including) the next enqueue. -/
@@ -75,16 +83,29 @@ def liftPool (s : MState) (r : Option (PState × List PEff)) : Option (MState ×
       | .handlerExc => (acc.1, if s.cfg.excHandler.isSome then acc.2 ++ [.handlerExc] else acc.2)) ({ s with pool := p }, [])
     (s1, me)
 
+/-- `on_ioexception` on the failing thread: the handler (if installed) is told; the process exits unless it returns a false
+    value. -/
+def ioEffects (cfg : SrvCfg) : List MEff := (onIoException cfg).map fun a => match a with | .handlerIo => .ioHandler | .exit => .exit
+
+/-- the bookkeeping of a reported I/O failure (ghost count, process exit). -/
+def ioReport (s : MState) : MState :=
+  { s with nio := s.nio + (if s.cfg.ioHandler.isSome then 1 else 0),
+           exited := (match s.cfg.ioHandler with | none => true | some r => r) }
+
 inductive MOp
   | threadStart | deliver (c : String) | recv | put | get | send | taskStart | adapterBegin
   | adapterEnd (o : Outcome)
   | join          -- the reader's `join()` of the writer thread returns
   | poolWait      -- the reader's `executor.shutdown()` returns
+  | endOfInput    -- the peer closes / resets the connection (environment)
+  | sendFail      -- the writer's `sendall` raises OSError (environment decides which write fails)
 
 def mstep (s : MState) (env : InitEnv) (tid : String) (op : MOp) : Option (MState × List MEff) :=
+  if s.exited then none else
   if tid = "P" then
     match op with
-    | .deliver c => some ({ s with inbound := s.inbound ++ [c] }, [])
+    | .deliver c => if s.inEnd then none else some ({ s with inbound := s.inbound ++ [c] }, [])
+    | .endOfInput => some ({ s with inEnd := true }, [])
     | _ => none
   else if tid = "M" then
     match op, s.mpc with
@@ -95,11 +116,13 @@ def mstep (s : MState) (env : InitEnv) (tid : String) (op : MOp) : Option (MStat
     | _, _ => none
   else if tid = "R" then
     if s.rthr = 1 then (match op with | .threadStart => some ({ s with rthr := 2 }, []) | _ => none) else
-    if s.rthr = 0 ∨ s.rthr = 3 then none else
+    if s.rthr = 0 ∨ s.rthr = 3 ∨ s.rthr = 4 then none else
     match op, s.rq with
     | .recv, [] =>
       match s.inbound with
-      | [] => none
+      | [] =>
+        -- EOF / reset: reported through `on_ioexception`, then the reader leaves its loop (`rthr = 4`: died on a failure)
+        if s.inEnd then some (ioReport { s with rthr := 4 }, ioEffects s.cfg) else none
       | c :: rest =>
         let (lines, b) := feed s.rbuf c
         let (st, acts) := dispatchAll s.cfg env s.rst lines
@@ -111,7 +134,7 @@ def mstep (s : MState) (env : InitEnv) (tid : String) (op : MOp) : Option (MStat
       -- `_RequestManager.quit()`: stop flag, stop pill behind everything already queued; then `join()`
       some ({ s with sendQ := s.sendQ ++ [none], rq := rest, cpc := 1 }, [.enqueuePill])
     | .join, .poolShutdown :: _ =>
-      if s.cpc = 1 ∧ s.wthr = 3 then some ({ s with cpc := 2 }, []) else none
+      if s.cpc = 1 ∧ (s.wthr = 3 ∨ s.wthr = 4) then some ({ s with cpc := 2 }, []) else none
     | .poolWait, .poolShutdown :: .sockClose :: _ =>
       -- `executor.shutdown()` returns when no task is queued or running; then the socket is closed and the reader, its stop
       -- flag set, leaves its loop (whatever followed an honoured close request in the same read is not modelled: the
@@ -122,8 +145,11 @@ def mstep (s : MState) (env : InitEnv) (tid : String) (op : MOp) : Option (MStat
     | _, _ => none
   else if tid = "W" then
     if s.wthr = 1 then (match op with | .threadStart => some ({ s with wthr := 2 }, []) | _ => none) else
-    if s.wthr = 0 ∨ s.wthr = 3 then none else
+    if s.wthr = 0 ∨ s.wthr = 3 ∨ s.wthr = 4 then none else
     match op, s.wsend with
+    | .sendFail, some _ =>
+      -- the write fails: reported through `on_ioexception`, the message is lost, the writer leaves its loop (`wthr = 4`)
+      some (ioReport { s with wsend := none, wthr := 4 }, ioEffects s.cfg)
     | .get, none =>
       match s.sendQ with
       | some m :: rest => some ({ s with sendQ := rest, wsend := some m }, [])
@@ -145,12 +171,13 @@ def mstep (s : MState) (env : InitEnv) (tid : String) (op : MOp) : Option (MStat
   else none
 
 def menabled (s : MState) : List String :=
+  if s.exited then [] else
   let rgo : Bool := match s.rq with
-    | [] => !s.inbound.isEmpty
-    | .poolShutdown :: _ => (s.cpc = 1 ∧ s.wthr = 3) ∨ (s.cpc = 2 ∧ s.pool.running = 0 ∧ s.pool.workQ = [])
+    | [] => !s.inbound.isEmpty || s.inEnd
+    | .poolShutdown :: _ => (s.cpc = 1 ∧ (s.wthr = 3 ∨ s.wthr = 4)) ∨ (s.cpc = 2 ∧ s.pool.running = 0 ∧ s.pool.workQ = [])
     | _ => true
   let r := if s.rthr = 1 ∨ (s.rthr = 2 ∧ rgo) then ["R"] else []
-  let w := if s.wthr = 0 ∨ s.wthr = 3 then [] else if s.wthr = 1 then ["W"] else
+  let w := if s.wthr = 0 ∨ s.wthr = 3 ∨ s.wthr = 4 then [] else if s.wthr = 1 then ["W"] else
     match s.wsend with
     | some _ => ["W"]
     | none => if s.sendQ.isEmpty then [] else ["W"]
